@@ -322,3 +322,21 @@ Qed.
 Theorem pkcs7_unpad_strict_char P m :
   pkcs7_unpad_strict P = Some m <-> exists p, 1 <= p <= 16 /\ P = m ++ repeat (N.of_nat p) p.
 Proof. exact (pkcs7_unpad_strict_iff (implE []) (implD []) (implE_len []) (implD_len []) (implE_ok []) (implDE []) P m). Qed.
+
+(* ---- block_cipher.c, aes128 object (compiled only with -DENABLE_AES, which no build defines) ---- *)
+From GmVerif Require Import Cipher.AES.
+Theorem bc_aes128_encrypt_eq key blk : length key = 16 ->
+  bc_aes128_encrypt (bc_aes128_set_encrypt_key key) blk = aes_encrypt_block key blk.
+Proof.
+  intros Hk. unfold bc_aes128_encrypt, bc_aes128_set_encrypt_key, aes_encrypt_block.
+  rewrite firstn_all2 by (rewrite Hk; apply le_n).
+  destruct (aes_set_encrypt_key key) as [[w r]|] eqn:He; [reflexivity|].
+  unfold aes_set_encrypt_key, aes_rounds in He. rewrite Hk in He. discriminate.
+Qed.
+(* as coded, decrypt is aes_encrypt under the decryption key schedule: not the inverse (FIPS-197 C.1) *)
+Example bc_aes128_decrypt_refuted :
+  let k := map N.of_nat (seq 0 16) in
+  let ct := [0x69;0xc4;0xe0;0xd8;0x6a;0x7b;0x04;0x30;0xd8;0xcd;0xb7;0x80;0x70;0xb4;0xc5;0x5a]%N in
+  aes_decrypt_block k ct = [0x00;0x11;0x22;0x33;0x44;0x55;0x66;0x77;0x88;0x99;0xaa;0xbb;0xcc;0xdd;0xee;0xff]%N /\
+  bc_aes128_decrypt (bc_aes128_set_decrypt_key k) ct <> aes_decrypt_block k ct.
+Proof. vm_compute. split; [reflexivity | discriminate]. Qed.
